@@ -28,6 +28,8 @@ type establishLinkHandler struct {
 	valCount int
 	// rigidRef is the non-weak reference
 	rigidRef directive.Reference
+	// disposed indicates the directive instance was disposed
+	disposed bool
 }
 
 // newEstablishLinkHandler constructs a new establishLinkHandler
@@ -62,9 +64,19 @@ func (e *establishLinkHandler) HandleValueAdded(inst directive.Instance, val dir
 			WithField("local-peer", vl.GetLocalPeer().String()).
 			Debug("starting peer hold-open tracking")
 		go func() {
+			// acquire outside the value callback, then re-check the state: the
+			// value may have been removed (or another acquire may have won)
+			// while this goroutine was waiting to run.
+			ref := e.di.AddReference(nil, false)
 			e.mtx.Lock()
-			e.rigidRef = e.di.AddReference(nil, false)
+			if e.valCount > 0 && e.rigidRef == nil && !e.disposed {
+				e.rigidRef = ref
+				ref = nil
+			}
 			e.mtx.Unlock()
+			if ref != nil {
+				ref.Release()
+			}
 		}()
 	}
 }
@@ -87,6 +99,8 @@ func (e *establishLinkHandler) HandleValueRemoved(inst directive.Instance, val d
 func (e *establishLinkHandler) HandleInstanceDisposed(inst directive.Instance) {
 	e.mtx.Lock()
 
+	e.disposed = true
+	e.valCount = 0
 	eref := e.ref
 	if eref == nil {
 		e.mtx.Unlock()
